@@ -1,6 +1,6 @@
 (* C05 — property theorems (statements only; proofs live in Proofs*.v). *)
 From Coq Require Import List ZArith QArith Bool Sorting.Permutation.
-Require Import QV.C05.Model QV.C05.Spec QV.C05.Param QV.C05.Proofs QV.C05.Proofs2 QV.C05.Proofs3 QV.C05.Proofs4 QV.C05.Proofs5 QV.C05.Ctors QV.C05.Proofs6 QV.C05.Proofs7 QV.C05.ProofsP QV.C05.Proofs8 QV.C05.Proofs9 QV.C05.Proofs10 QV.C05.Proofs11 QV.C05.Proofs12 QV.C05.Proofs13.
+Require Import QV.C05.Model QV.C05.Spec QV.C05.Param QV.C05.Proofs QV.C05.Proofs2 QV.C05.Proofs3 QV.C05.Proofs4 QV.C05.Proofs5 QV.C05.Ctors QV.C05.Proofs6 QV.C05.Proofs7 QV.C05.ProofsP QV.C05.Proofs8 QV.C05.Proofs9 QV.C05.Proofs10 QV.C05.Proofs11 QV.C05.Proofs12 QV.C05.Proofs13 QV.C05.Proofs14.
 Import ListNotations.
 Open Scope Z_scope.
 
@@ -293,3 +293,16 @@ Theorem C05_atom_leaf_linear_never_raises : forall d chs ins outs mat, csub ins 
   wf_raises (WRev (WTrans (WAtom d chs) [TLinear ins outs mat])) = false.
 Proof. exact atom_leaf_linear_never_raises. Qed.
 Print Assumptions C05_atom_leaf_linear_never_raises.
+
+(* third step (round 6): WHOLE programs.  For every template tree compiled with nothing collapsed under a global
+   transformation without LinearTransformation, no leaf of the program raises when it is looked at the way an upload does
+   (every leaf is atom / T(atom) / the reversed of these, and the chains that arrive are G extended by offsets, scalings
+   and parallel-channel overwrites only).  Still open: programs with collapsed nodes, LinearTransformations. *)
+Theorem C05_uncollapsed_never_raises : forall p G l, no_linear G = true -> compile p [] G = Some l ->
+  existsb wf_raises (flat l) = false.
+Proof. exact uncollapsed_never_raises. Qed.
+Print Assumptions C05_uncollapsed_never_raises.
+Example C05_uncollapsed_never_raises_nonvacuous :
+  no_linear G_nl = true /\ exists l, compile w_nl [] G_nl = Some l /\ (3 <= length (flat l))%nat /\
+    existsb (fun w => match w with WRev (WTrans _ _) => true | _ => false end) (flat l) = true.
+Proof. exact uncollapsed_nonvacuous. Qed.
